@@ -184,6 +184,10 @@ type ATStmt struct {
 	Classes []string
 	// ForceFail: the database is made to fail the business statement (injected error)
 	ForceFail bool
+	// Form of an upsert (Kind 'Y'): 0 INSERT … ON DUPLICATE KEY UPDATE, 'i' INSERT IGNORE (no assignment: an
+	// existing row stays as it is), 'r' REPLACE (every non-key column takes the new value).  The model statement
+	// is the same `upsert`; only the SQL text differs.
+	Form byte
 	// RevCols: an INSERT / upsert lists its columns (and values) in the opposite order of the table's
 	RevCols bool
 	// Spell: how the statement writes the table name (0 as created, 1 UPPER, 2 `quoted`, 3 db.table, 4 `db`.`table`)
@@ -397,7 +401,13 @@ func (s *ATStmt) Render(sc *ATSchema) (string, []interface{}, string) {
 				names[a], names[b] = names[b], names[a]
 			}
 		}
-		o.sb.WriteString("INSERT INTO " + s.tableText(sc) + " (" + strings.Join(names, ", ") + ") VALUES ")
+		verb := "INSERT INTO "
+		if s.Kind == 'Y' && s.Form == 'i' {
+			verb = "INSERT IGNORE INTO "
+		} else if s.Kind == 'Y' && s.Form == 'r' {
+			verb = "REPLACE INTO "
+		}
+		o.sb.WriteString(verb + s.tableText(sc) + " (" + strings.Join(names, ", ") + ") VALUES ")
 		fmt.Fprintf(&o.tok, "%c%d:%d:", s.Kind, len(s.Rows), len(sc.Cols))
 		for i, row := range s.Rows {
 			if i > 0 {
@@ -460,9 +470,16 @@ func (s *ATStmt) Render(sc *ATSchema) (string, []interface{}, string) {
 			o.sb.WriteString(")")
 		}
 		if s.Kind == 'Y' {
-			o.sb.WriteString(" ON DUPLICATE KEY UPDATE ")
+			if s.Form == 0 {
+				o.sb.WriteString(" ON DUPLICATE KEY UPDATE ")
+			}
 			fmt.Fprintf(&o.tok, "A%d:", len(s.Assign))
 			for i, a := range s.Assign {
+				if s.Form != 0 {
+					// IGNORE has no assignment, REPLACE assigns every non-key column implicitly
+					fmt.Fprintf(&o.tok, "%d:V", a.Col)
+					continue
+				}
 				if i > 0 {
 					o.sb.WriteString(", ")
 				}
@@ -955,6 +972,22 @@ func genUpsert(r *Rng, sc *ATSchema, existing [][]ATVal, taken map[string]bool) 
 func genStmt(r *Rng, sc *ATSchema, taken map[string]bool, o ATGenOpts) *ATStmt {
 	if o.Upserts && r.Chance(20) {
 		st := genUpsert(r, sc, o.Existing, taken)
+		switch (len(st.Rows)*3 + len(st.Assign) + len(sc.Cols)) % 5 {
+		case 0:
+			// INSERT IGNORE: rows whose key exists are left alone
+			st.Form, st.Assign = 'i', nil
+			st.Classes = nil
+			return st
+		case 1:
+			// REPLACE: rows whose key exists are replaced (every non-key column takes the new value)
+			st.Form, st.Assign = 'r', nil
+			for ci := range sc.Cols {
+				if !sc.isPK(ci) {
+					st.Assign = append(st.Assign, ATUpAssign{Col: ci})
+				}
+			}
+			return st
+		}
 		if o.PKUpdates && (len(st.Rows)+len(st.Assign)+len(sc.Cols))%2 == 0 {
 			// ON DUPLICATE KEY UPDATE names a key column (id = VALUES(id)): refused by the proxy before it runs
 			st.Assign = append(st.Assign, ATUpAssign{Col: sc.PK[0]})
